@@ -48,8 +48,10 @@ def times (now : Int) : Times := { timestamp := now, lastref := now, expires := 
 
 def drain (s : Ufs Nat) : Ufs Nat := unlinkdFlush s s.pending.length
 
+/-- the old entry is released when the new reply's headers arrive; unlinkd is taken to run before the swap-out creates the new file
+(the other order is the race of `ufs_unlink_race_counterexample`) -/
 def doStore (u : U) (k n v : Nat) : U :=
-  { u with s := drain (storeObj u.s k v 180 (n + 400) (times u.now)), now := u.now + 1 }
+  { u with s := drain (storeObj (drain (release u.s k)) k v 180 (n + 400) (times u.now)), now := u.now + 1 }
 
 def uStep (u : U) : Sop → U × String
   | .store k n =>
